@@ -93,11 +93,67 @@ def check_roundtrip(ctx_bads, space, inst, rows_inst, pk, mat, feasible):
     return 1
 
 
+def check_log(ctx_bads, path, space, inst, rows_inst, pk, mat):
+    """
+    Packing.from_log: the other public parser of the text form.
+
+    A log file whose RESULT_Y section holds the text must give the packing
+    back / be refused exactly like from_str (it "subjects it to the same
+    validation").
+    """
+    from moptipyapps.binpacking2d.packing import Packing
+    W, H = inst.bin_width, inst.bin_height
+    pk[:, :] = mat
+    nb = int(np.asarray(mat)[:, 1].max())
+    pk.n_bins = nb
+    with open(path, "w", encoding="utf-8") as f:
+        f.write("BEGIN_RESULT_Y\n" + space.to_str(pk) + "\nEND_RESULT_Y\n")
+    try:
+        back = Packing.from_log(path, inst)
+        err = None
+    except (ValueError, TypeError) as e:
+        back = None
+        err = f"{type(e).__name__}: {str(e)[:100]}"
+    code = P.feasible_intervals(mat, rows_inst, W, H, nb)
+    if (err is None) != (code == P.OK):
+        ctx_bads.append((("from_log|" + classify(
+            inst, rows_inst, mat, nb, err is None, code)), W, H, rows_inst,
+            np.asarray(mat).tolist(), nb, err, P.CODE_NAMES[code],
+            "Packing.from_log(file with to_str(x) as RESULT_Y, instance)"))
+    elif back is not None and not (
+            np.array_equal(np.asarray(back), np.asarray(mat))
+            and back.n_bins == nb and back.instance is inst):
+        ctx_bads.append(("from_log|round trip differs", W, H, rows_inst,
+                         np.asarray(mat).tolist(), nb,
+                         np.asarray(back).tolist(), "equal",
+                         "Packing.from_log(file with to_str(x) as RESULT_Y, "
+                         "instance)"))
+    return 1
+
+
+#: per instance, the log-file route is taken for this many feasible packings
+LOG_PACKINGS = 2
+
+
 def job(a):
+    import os
+    import tempfile
+
     from moptipyapps.binpacking2d.packing import Packing
     from moptipyapps.binpacking2d.packing_space import PackingSpace
     W, H, kmin, kmax, shard, nshards, double = a
     C.gen_drivers()
+    shm = "/dev/shm" if os.path.isdir("/dev/shm") else None
+    fd, logp = tempfile.mkstemp(prefix="c04_", suffix=".txt", dir=shm)
+    os.close(fd)
+    try:
+        return _job(a, Packing, PackingSpace, logp)
+    finally:
+        os.unlink(logp)
+
+
+def _job(a, Packing, PackingSpace, logp):
+    W, H, kmin, kmax, shard, nshards, double = a
     bads = []
     cnt = 0
     npk = 0
@@ -113,7 +169,7 @@ def job(a):
         pk = Packing(inst)
         rows_inst = [[int(v) for v in r] for r in np.asarray(inst)]
         alpha = alphabet(W, H, inst)
-        for s in store:
+        for si, s in enumerate(store):
             base = np.array(s, np.int64)
             k = int(base[:, 1].max())
             npk += 1
@@ -121,6 +177,9 @@ def job(a):
                                 "feasible packing")
             cnt += check_roundtrip(bads, space, inst, rows_inst, pk, base,
                                    True)
+            if si < LOG_PACKINGS:
+                cnt += check_log(bads, logp, space, inst, rows_inst, pk,
+                                 base)
             for nb in (k - 1, k + 1, 0, None):
                 cnt += check_matrix(bads, space, inst, rows_inst, pk, base,
                                     nb, "n_bins corrupted")
@@ -138,6 +197,9 @@ def job(a):
                     if v >= 0:
                         cnt += check_roundtrip(bads, space, inst, rows_inst,
                                                pk, m, False)
+                        if si < LOG_PACKINGS:
+                            cnt += check_log(bads, logp, space, inst,
+                                             rows_inst, pk, m)
             if double and n <= 2:
                 for (c1, c2) in itertools.combinations(cells, 2):
                     for v1 in alpha:
@@ -320,7 +382,8 @@ def report(ctx, b):
     ctx.violation(
         sig, f"bin {W}x{H} items={rows} matrix={mat} n_bins={nb} [{what}]: "
         f"validate -> {out or 'accepted'}; independent predicate -> {code}",
-        {"W": W, "H": H, "rows": rows, "matrix": mat, "n_bins": nb})
+        {"W": W, "H": H, "rows": rows, "matrix": mat, "n_bins": nb,
+         "route": "from_log" if sig.startswith("from_log") else "validate"})
 
 
 def specs(ctx):
@@ -400,6 +463,8 @@ def run(ctx: Ctx) -> None:
         "(explicit-state placement search) with 0 corrupted fields, every "
         "single-field corruption over the value alphabet, every double-"
         "field corruption for <=2 items, n_bins faults, structural faults;"
+        " the first two feasible packings of every instance and their "
+        "single-field corruptions also through Packing.from_log;"
         " non-trivial = distinct feasible packings (accepted side of the "
         "iff) - all others are the rejected side")
     ctx.sample({"bin": [3, 2], "items": [[2, 1, 1], [1, 1, 1]],
@@ -419,6 +484,18 @@ def replay(ctx: Ctx, rep: dict) -> bool:
     mat = np.array(rep["matrix"], np.int64)
     pk[:, :] = mat
     nb = rep["n_bins"]
+    if rep.get("route") == "from_log":
+        import os
+        import tempfile
+        fd, path = tempfile.mkstemp(suffix=".txt")
+        os.close(fd)
+        bads = []
+        try:
+            check_log(bads, path, space, inst, rep["rows"], pk, mat)
+        finally:
+            os.unlink(path)
+        print("Packing.from_log:", bads or "agrees with the predicate")
+        return not bads
     pk.n_bins = nb
     out = validate_outcome(space, pk)
     code = P.feasible_intervals(mat, rep["rows"], rep["W"], rep["H"], nb) \
